@@ -157,6 +157,14 @@ def main(tier, write_baseline=False):
         ]
     )
     refuted = e1.run_contracts(run, "contracts.C09")
+
+    def struct_replay(_name):
+        # the clause the decorator / wrapper side conditions carry: the contracts of cst_parse on real inputs
+        b_ = bounded("quick")
+        f_ = b_["failures"]
+        return {"call": f_[0]["function"], "source": f_[0]["input"], "what": f_[0]["what"]} if f_ else None
+
+    refuted, s_inputs = run.confirm_or_undecide(refuted, struct_replay)
     if write_baseline:
         common.write_baseline("C09", [n for n, o in run.obligations.items() if o["status"] == "proved"])
     compare_baseline(run, set(run.obligations))
@@ -177,7 +185,7 @@ def main(tier, write_baseline=False):
         run.violation(
             o["name"],
             "obligation refuted by %s on path %s%s" % (o["backend"], " ".join(o["trace"]), "; concrete failing input found by the bounded stand-in: " + cand[0]["what"] if cand else ""),
-            failing_input=({"call": cand[0]["function"], "source": cand[0]["input"]} if cand else None),
+            failing_input=s_inputs.get(o["name"]) or ({"call": cand[0]["function"], "source": cand[0]["input"]} if cand else None),
             solver_output={"model": o["model"], "smt2": (o["smt2"] or "")[:6000], "notes": o["notes"]},
         )
     if fails and not refuted:
